@@ -336,6 +336,24 @@ func (vc *VC) callMods(fr *Frame, c *ssa.CallCommon, mods map[string]bool, depth
 	}
 	fn := c.StaticCallee()
 	if fn == nil {
+		// calls through function values that carry a contract (parameter, field, package variable)
+		if prm, ok := c.Value.(*ssa.Parameter); ok && prm.Parent() != nil {
+			if con := vc.eng.contractsByKey[vc.eng.funcKey(prm.Parent())+"#"+prm.Name()]; con != nil {
+				return vc.contractMods(con, mods)
+			}
+		}
+		if u, ok := c.Value.(*ssa.UnOp); ok && u.Op == token.MUL {
+			if g, ok := u.X.(*ssa.Global); ok && g.Pkg != nil {
+				if con := vc.eng.contractsByKey[g.Pkg.Pkg.Path()+"."+g.Name()]; con != nil {
+					return vc.contractMods(con, mods)
+				}
+			}
+		}
+		if key, _, ok := vc.funcFieldKey(c.Value); ok {
+			if con := vc.eng.contractsByKey[key]; con != nil {
+				return vc.contractMods(con, mods)
+			}
+		}
 		return true
 	}
 	name := fn.String()
